@@ -42,6 +42,7 @@ pub(crate) trait CKKSRotateDefault<BE: Backend> {
             })?;
 
         let offset = dst.offset_unary(src);
+        let log_budget = checked_log_budget_sub("rotate", src.log_budget(), offset)?;
 
         if offset != 0 {
             self.glwe_lsh(dst, src, offset, scratch);
@@ -51,7 +52,7 @@ pub(crate) trait CKKSRotateDefault<BE: Backend> {
         }
 
         dst.meta = src.meta();
-        dst.meta.log_budget = checked_log_budget_sub("rotate", dst.log_budget(), offset)?;
+        dst.meta.log_budget = log_budget;
         Ok(())
     }
 
